@@ -5,6 +5,7 @@
 package grogusim
 
 import (
+	"math/big"
 	"context"
 	"crypto/sha256"
 	"encoding/hex"
@@ -347,6 +348,7 @@ type priceService struct {
 	price  map[string]uint64
 	status map[string]bothan.Status
 	calls  int
+	base   uint64 // first price of every signal (1e9-scaled prices of very different magnitudes)
 	missing map[string]bool
 }
 
@@ -369,7 +371,7 @@ func (p *priceService) GetPrices(ids []string) (*bothan.GetPricesResponse, error
 			continue
 		}
 		if _, ok := p.price[id]; !ok {
-			p.price[id] = 1_000_000
+			p.price[id] = p.base
 			p.status[id] = bothan.Status_STATUS_AVAILABLE
 		}
 		out.Prices = append(out.Prices, &bothan.Price{SignalId: id, Price: p.price[id], Status: p.status[id]})
@@ -529,7 +531,9 @@ func RunOne(o core.RunOpts) (res *core.RunResult) {
 	s := &sched{ch: ch, lg: lg}
 	nd := &node{s: s, w: w, st: st, ch: ch, faults: faults, txs: map[string]*txInfo{}}
 	qr := &queriers{s: s, w: w, n: nd, qs: feedskeeper.NewQueryServer(app.FeedsKeeper), st: st, ch: ch}
-	ps := &priceService{s: s, price: map[string]uint64{}, status: map[string]bothan.Status{}, missing: map[string]bool{}}
+	ps := &priceService{s: s, price: map[string]uint64{}, status: map[string]bothan.Status{}, missing: map[string]bool{},
+		base: []uint64{1_000_000, 1_000_000, 1_000_000_000_000, 150_000_000_000_000_000, 2_000_000_000_000_000_000}[ch.Intn("cfg.pricescale", 5)]}
+	bigPrices := ps.base > 1_000_000_000_000_000
 	simMinutes := 6 + ch.Intn("cfg.minutes", 10)
 	if o.Thorough {
 		simMinutes = 10 + ch.Intn("cfg.minutes", 50)
@@ -672,7 +676,9 @@ func RunOne(o core.RunOpts) (res *core.RunResult) {
 						}
 						switch ch.Weighted("price.move", []int{88, 4, 4, 2, 2}) {
 						case 1:
-							ps.price[id] = p + p/200 // 50 bp
+							if p < 1<<63 {
+								ps.price[id] = p + p/200 // 50 bp
+							}
 						case 2:
 							// aim at the feed's deviation threshold: exactly, one below, one above
 							dev := feedstypes.CalculateDeviation(f.Power, fp.PowerStepThreshold, fp.MinDeviationBasisPoint, fp.MaxDeviationBasisPoint)
@@ -681,7 +687,11 @@ func RunOne(o core.RunOpts) (res *core.RunResult) {
 							if vp, ok := vps[id]; ok && vp.Price > 10000 {
 								base = vp.Price // aim relative to the validator's on-chain price: that is what the daemon compares with
 							}
-							d := (base*uint64(bps) + 9999) / 10000 // smallest move of at least bps basis points
+							// smallest move of at least bps basis points (128-bit product: prices go up to 2e18)
+							d := new(big.Int).Div(new(big.Int).Add(new(big.Int).Mul(new(big.Int).SetUint64(base), big.NewInt(bps)), big.NewInt(9999)), big.NewInt(10000)).Uint64()
+							if base > 1<<62 && !ch.Bool("price.down", 500) {
+								d = 0 // no room above
+							}
 							if ch.Bool("price.down", 500) {
 								ps.price[id] = base - d
 							} else {
@@ -871,7 +881,15 @@ func RunOne(o core.RunOpts) (res *core.RunResult) {
 						if op > np {
 							diff = op - np
 						}
-						due := vp.SignalPriceStatus != nst || (op == 0 && np != 0) || (op != 0 && int64(diff*10000/op) >= dev)
+						devNow := int64(0)
+						if op != 0 {
+							devNow = new(big.Int).Div(new(big.Int).Mul(new(big.Int).SetUint64(diff), big.NewInt(10000)), new(big.Int).SetUint64(op)).Int64()
+						}
+						margin := int64(0)
+						if bigPrices {
+							margin = 1 // the daemon compares in float64: within one basis point of the threshold nothing is demanded for such magnitudes
+						}
+						due := vp.SignalPriceStatus != nst || (op == 0 && np != 0) || (op != 0 && devNow >= dev+margin)
 						if !due {
 							delete(dueSince, id)
 							continue
